@@ -78,7 +78,7 @@ func reg(p *propCfg) {
 
 func init() {
 	reg(&propCfg{ID: "C13", Test: "TestC13", Quick: tierCfg{150, 8}, Thorough: tierCfg{5000, 16}, Race: true, Fatal: true, Timeout: 8 * time.Minute})
-	reg(&propCfg{ID: "C14", Test: "TestC14", Quick: tierCfg{3000, 4}, Thorough: tierCfg{120000, 16}})
+	reg(&propCfg{ID: "C14", Test: "TestC14", Quick: tierCfg{4000, 6}, Thorough: tierCfg{120000, 16}})
 	reg(&propCfg{ID: "C19", Test: "TestC19", Quick: tierCfg{10000, 8}, Thorough: tierCfg{400000, 16}})
 	reg(&propCfg{ID: "C11", Test: "TestC11", Quick: tierCfg{30000, 8}, Thorough: tierCfg{600000, 16}})
 	reg(&propCfg{ID: "C10", Test: "TestC10", Quick: tierCfg{4000, 6}, Thorough: tierCfg{150000, 16}, Fatal: true, Fuzz: []fuzzCfg{{"FuzzC10", 3 * time.Minute}, {"FuzzBytes", 3 * time.Minute}}})
@@ -92,7 +92,7 @@ func init() {
 	reg(&propCfg{ID: "C15", Test: "TestC15", Quick: tierCfg{10000, 8}, Thorough: tierCfg{500000, 16}, Fuzz: []fuzzCfg{{"FuzzC15", 2 * time.Minute}}})
 	reg(&propCfg{ID: "C05", Test: "TestC05", Quick: tierCfg{1200, 8}, Thorough: tierCfg{40000, 16}, Fuzz: []fuzzCfg{{"FuzzC05", 2 * time.Minute}, {"FuzzBytes", 2 * time.Minute}}})
 	reg(&propCfg{ID: "C18", Test: "TestC18", Quick: tierCfg{9000, 8}, Thorough: tierCfg{400000, 16}, Fuzz: []fuzzCfg{{"FuzzC18", 2 * time.Minute}}})
-	reg(&propCfg{ID: "C07", Test: "TestC07", Quick: tierCfg{2500, 6}, Thorough: tierCfg{120000, 16}, Fuzz: []fuzzCfg{{"FuzzC07", 2 * time.Minute}}})
+	reg(&propCfg{ID: "C07", Test: "TestC07", Quick: tierCfg{2500, 6}, Thorough: tierCfg{60000, 16}, Fuzz: []fuzzCfg{{"FuzzC07", 2 * time.Minute}}})
 	reg(&propCfg{ID: "C02", Test: "TestC02", Quick: tierCfg{8000, 8}, Thorough: tierCfg{250000, 16}, Fuzz: []fuzzCfg{{"FuzzC02", 2 * time.Minute}}})
 	reg(&propCfg{ID: "C08", Test: "TestC08", Quick: tierCfg{12000, 8}, Thorough: tierCfg{500000, 16}})
 	reg(&propCfg{ID: "C01", Test: "TestC01", Quick: tierCfg{12000, 8}, Thorough: tierCfg{300000, 16}, Fuzz: []fuzzCfg{{"FuzzC01", 3 * time.Minute}}})
